@@ -305,7 +305,7 @@ pub fn gen(seed: u64, tier: &str) -> Vec<String> {
         push(&mut lines, &meta, &t, &[s]);
     }
     // random files
-    let count = if thorough { 2500 } else { 85 };
+    let count = if thorough { 2500 } else { 45 };
     for _ in 0..count {
         let meta = match rng.below(4) {
             0 => None,
@@ -462,11 +462,119 @@ pub fn gen(seed: u64, tier: &str) -> Vec<String> {
             .collect();
         push(&mut lines, &Some("odd".into()), &t, &sets);
     }
+    // second use: the ordinary round trip right after failing parses of damaged copies of the same
+    // image (and after a successful parse of another file) on the same thread
+    {
+        let count = if thorough { 150 } else { 10 };
+        for k in 0..count {
+            let meta = match k % 3 {
+                0 => None,
+                _ => Some(nonempty_name(&mut rng)),
+            };
+            let t = if k % 4 == 0 { none_table.clone() } else { rand_table(&mut rng, 257) };
+            let nsets = *rng.pick(&[0usize, 1, 2]);
+            let sets: Vec<Vec<Name>> = (0..nsets).map(|_| rand_set(&mut rng, 257)).collect();
+            let n = lines.len();
+            lines.push(line(n, &meta, &t, &sets).replacen(" aset ", " aset-after ", 1));
+        }
+    }
     // interleave refused / panicking / odd-shaped calls with ordinary ones (second use on one thread)
     rng.shuffle(&mut lines);
     lines
 }
 
+/// Calls made on the same thread right before the ordinary parse of `bytes` ("second use"):
+/// 0 nothing; 1..=5 a FAILING `from_bytes` of a damaged copy (cut 3 bytes short = inside the last
+/// pooled name, 1 byte short, cut in the middle of the text pool, cut inside the tables, first
+/// pointer-table entry pointing outside the data); 6 a successful parse of a different file.
+pub fn pre_call(variant: usize, bytes: &[u8]) {
+    let cut = |n: usize| {
+        let k = bytes.len().saturating_sub(n);
+        let _ = no_panic(|| BinArchive::from_bytes(&bytes[..k], Endian::Little).map(|_| ()));
+    };
+    let word = |o: usize| -> usize {
+        if o + 4 <= bytes.len() {
+            u32::from_le_bytes([bytes[o], bytes[o + 1], bytes[o + 2], bytes[o + 3]]) as usize
+        } else {
+            0
+        }
+    };
+    match variant {
+        0 => {}
+        1 => cut(3),
+        2 => cut(1),
+        3 => {
+            let tables = 0x20 + word(4) + 4 * word(8) + 8 * word(12);
+            let pool = bytes.len().saturating_sub(tables);
+            cut(pool / 2 + 1);
+        }
+        4 => {
+            let tables = 0x20 + word(4) + 4 * word(8) + 8 * word(12);
+            cut(bytes.len().saturating_sub(tables) + 6);
+        }
+        5 => {
+            let mut b = bytes.to_vec();
+            let o = 0x20 + word(4);
+            if word(8) > 0 && o + 4 <= b.len() {
+                b[o..o + 4].copy_from_slice(&0xFFFF_FFF0u32.to_le_bytes());
+            } else {
+                b.truncate(0x1F);
+            }
+            let _ = no_panic(|| BinArchive::from_bytes(&b, Endian::Little).map(|_| ()));
+        }
+        _ => {
+            let other = ASetFile {
+                meta: Some("other_meta".to_string()),
+                anim_clip_table: vec![Some("clip".to_string()); 257],
+                sets: vec![vec![Some("\u{30A2}set".to_string()); 257]],
+            };
+            let _ = no_panic(|| {
+                let b = other.serialize().unwrap();
+                let a = BinArchive::from_bytes(&b, Endian::Little).unwrap();
+                ASetFile::from_archive(&a).map(|_| ())
+            });
+        }
+    }
+}
+
+fn round_trip(file: &ASetFile, variant: usize) -> String {
+    match no_panic(|| file.serialize()) {
+        Err(_) => "panic".to_string(),
+        Ok(Err(_)) => "err".to_string(),
+        Ok(Ok(bytes)) => {
+            pre_call(variant, &bytes);
+            match no_panic(|| BinArchive::from_bytes(&bytes, Endian::Little)) {
+                Err(_) => format!("ok ? {} rr-panic", hex(&bytes)),
+                Ok(Err(_)) => format!("ok ? {} rr-err", hex(&bytes)),
+                Ok(Ok(archive)) => {
+                    let head = format!("ok {} {}", archive.size(), hex(&bytes));
+                    match no_panic(|| ASetFile::from_archive(&archive)) {
+                        Err(_) => format!("{} rr-panic", head),
+                        Ok(Err(_)) => format!("{} rr-err", head),
+                        Ok(Ok(again)) => {
+                            let re = match no_panic(|| again.serialize()) {
+                                Err(_) => "panic".to_string(),
+                                Ok(Err(_)) => "err".to_string(),
+                                Ok(Ok(b2)) => {
+                                    if b2 == bytes {
+                                        "same".to_string()
+                                    } else {
+                                        hex(&b2)
+                                    }
+                                }
+                            };
+                            format!("{} rr-ok {} {}", head, show_file(&again), re)
+                        }
+                    }
+                }
+            }
+        }
+    }
+}
+
+/// `aset`: the ordinary round trip.  `aset-after`: the same round trip performed once after each
+/// kind of preceding call on this thread (`pre_call` 1..=6); the line is the first result, with
+/// ` unstable` appended if the results are not all equal (the oracle judges it as an ordinary case).
 pub fn run_line(_st: &mut super::State, line: &str) -> String {
     let f: Vec<&str> = line.split(' ').collect();
     let id = f[0];
@@ -475,34 +583,15 @@ pub fn run_line(_st: &mut super::State, line: &str) -> String {
         anim_clip_table: list_of(f[3]),
         sets: f[4..].iter().map(|s| list_of(s)).collect(),
     };
-    let out = match no_panic(|| file.serialize()) {
-        Err(_) => "panic".to_string(),
-        Ok(Err(_)) => "err".to_string(),
-        Ok(Ok(bytes)) => match no_panic(|| BinArchive::from_bytes(&bytes, Endian::Little)) {
-            Err(_) => format!("ok ? {} rr-panic", hex(&bytes)),
-            Ok(Err(_)) => format!("ok ? {} rr-err", hex(&bytes)),
-            Ok(Ok(archive)) => {
-                let head = format!("ok {} {}", archive.size(), hex(&bytes));
-                match no_panic(|| ASetFile::from_archive(&archive)) {
-                    Err(_) => format!("{} rr-panic", head),
-                    Ok(Err(_)) => format!("{} rr-err", head),
-                    Ok(Ok(again)) => {
-                        let re = match no_panic(|| again.serialize()) {
-                            Err(_) => "panic".to_string(),
-                            Ok(Err(_)) => "err".to_string(),
-                            Ok(Ok(b2)) => {
-                                if b2 == bytes {
-                                    "same".to_string()
-                                } else {
-                                    hex(&b2)
-                                }
-                            }
-                        };
-                        format!("{} rr-ok {} {}", head, show_file(&again), re)
-                    }
-                }
-            }
-        },
+    let out = if f[1] == "aset-after" {
+        let outs: Vec<String> = (1..=6).map(|v| round_trip(&file, v)).collect();
+        if outs.iter().all(|o| *o == outs[0]) {
+            outs[0].clone()
+        } else {
+            format!("{} unstable", outs[0])
+        }
+    } else {
+        round_trip(&file, 0)
     };
     format!("{} {}", id, out)
 }
